@@ -127,7 +127,9 @@ TLeaveGroup ==
 
 TEnd ==
   /\ IsEvent("End") /\ phase = "stopped"
-  /\ (Kind = "consumer" /\ joined /\ ~Static /\ reachStop) => sawLeave
+  \* "has left the group": its LeaveGroup arrived, or the coordinator does not hold it as a member any more (its session
+  \* ran out while stop() sat in the barrier of an unfinished rebalance)
+  /\ (Kind = "consumer" /\ joined /\ ~Static /\ reachStop) => (sawLeave \/ ~Ev.still_member)
   /\ Static => ~sawLeave
   /\ Ev.counts.other = 0 /\ Ev.counts.accum = 0 /\ Ev.timers = 0 /\ Ev.conns = 0 /\ \A c \in CompSet : Measured(Ev)[c] = 0
   /\ UNCHANGED vars /\ Same
